@@ -554,6 +554,13 @@ class Check(PropertyCheck):
                             return f"command {e[1]} raised a timeout although its request was never sent (it was still queued)"
                         if ev[0] not in ("timeout", "race"):
                             return f"command {e[1]} raised a timeout in a step where no timer fired ({ev[0]})"
+                    if e[2] == KIND["sendfail"]:
+                        # the link error of a call is the failure of ITS OWN send: a caller still queued for the slot has
+                        # handed nothing to the link, and a failure reported for one send ends that one call
+                        if not (ev[0] == "senddone" and not ev[2] and ev[1] == e[1]):
+                            return (f"command {e[1]} raised a link error in a step in which no send of its own failed ({ev[0]} "
+                                    f"{ev[1] if len(ev) > 1 else ''}): "
+                                    f"{'its request was never sent (it was still queued)' if not any(c == e[1] for c, _f in pending.values()) else 'its send had succeeded'}")
                     if inflight == e[1]:
                         inflight = None
                     waiting_prio.pop(e[1], None)
